@@ -23,6 +23,7 @@ func TestVerif_C02_Exact(t *testing.T) {
 	rec.Rule("rapid: (d,e,stream) from the solver generator: 0..4 leading candidates each built to hit one named rejection rule (k>=n: n, n+1, 2^256-1, uniform; k=0; r=0 via e=-x([k]G) incl. the twin n-k; r+k=n; s=0 via k=r*d), repeated/interleaved, then an acceptable k (uniform, or solved so that r/s/t is short), then 0..40 trailing bytes. Oracle: SignHashed returns err=nil and exactly sm2ref.Sign's (r,s) as 32-byte strings, and the reader was asked for exactly 32*(candidates) bytes in 32-byte requests. Non-trivial: at least one rejected candidate or r/s with a leading zero byte; distinct by (d,e,stream).")
 	t.Cleanup(stats.FlushAll)
 	rapid.Check(t, func(t *rapid.T) {
+		foreignCalls(t, rec, "foreign") // state left behind by other entry points must not matter
 		c := sm2gen.DrawSignCase(t)
 		wr, ws, wc, wrej, werr := sm2ref.Sign(c.D, c.E, c.Stream)
 		if werr != nil || wc != c.Cands || fmt.Sprint(wrej) != fmt.Sprint(c.Rejected) {
@@ -81,6 +82,7 @@ func TestVerif_C02_KeyRange(t *testing.T) {
 	rec.Rule("rapid: private key encodings outside [1,n-2]: value 0 as 32 zero bytes / 1..31 zero bytes / empty; n-1, n, n+1, 2^256-1, uniform in [n-1,2^256); 33..40-byte strings; and valid controls 1, 2, n-2, n-3. Oracle: out-of-range -> err != nil and r = s = nil, nothing more than needed read; in range -> signature equal to the reference. Every case non-trivial (boundary keys); distinct by (key encoding, e).")
 	t.Cleanup(stats.FlushAll)
 	rapid.Check(t, func(t *rapid.T) {
+		foreignCalls(t, rec, "foreign") // state left behind by other entry points must not matter
 		r0 := gen.Rand(t, "seed")
 		cls := gen.Pick(t, "class", "zero32", "zeroShort", "empty", "n-1", "n", "n+1", "max", "uniform>=n-1", "long", "valid-low", "valid-high", "nil")
 		var key []byte
@@ -155,6 +157,7 @@ func TestVerif_C02_RelatedKeyHistory(t *testing.T) {
 	rec.Rule("rapid history of 2..5 SignHashed calls in one process; the key of each call is derived from the previous one by a drawn relation {same key, same key in a fresh slice, a prefix d[:k] (a shorter encoding = a different integer), an extension of a short key with drawn bytes, left-padded with zeros to 32 bytes (same integer), last byte changed, first byte changed, unrelated}; digest and nonce fresh per call. Oracle: every (r,s) equals sm2ref.Sign for that call's own key (or an error iff the key is outside [1,n-2]). Non-trivial: every history (state carried across calls); distinct by history.")
 	t.Cleanup(stats.FlushAll)
 	rapid.Check(t, func(t *rapid.T) {
+		foreignCalls(t, rec, "foreign") // state left behind by other entry points must not matter
 		r0 := gen.Rand(t, "seed")
 		_, key, _ := sm2gen.PrivKey(t, "d0")
 		steps := gen.Int(t, "steps", 2, 5)
